@@ -134,6 +134,16 @@ def drive_case(case):
         return [cps(u) for u in subjects if c.fullmatch(u)]
 
     o["re_matches"] = _res(rx)
+    # the SAME value object rendered once more as a regular expression, now for a literal with a delimiter
+    delim = chr(case["rdelim"])
+
+    def rd():
+        r = str(s.to_regex(delim).regexp)
+        c = re.compile(r, re.DOTALL)
+        return {"text": cps(r), "matches": [cps(u) for u in subjects if c.fullmatch(u)]}
+
+    o["rdelim"] = case["rdelim"]
+    o["rd"] = _res(rd)
     # the regex transformation of processing pipelines (three methods)
     from sigma.processing.transformations import RegexTransformation
     from sigma.types import SigmaRegularExpression, SigmaRegularExpressionFlag
